@@ -775,13 +775,17 @@ def compare_consistent(T, exp, r):
 _SIG2REL = {(True, True, False, False): GT, (False, True, True, False): EQ, (False, False, True, True): LT, (False, False, False, False): IN}
 
 
-def model_sig(name, w, v, S):
+def model_sig(name, w, v, S, unknown=False):
+    """the four verdicts (w > v, w >= v, w <= v, w < v) of the reference model with the defect models S; None when a verdict is not judged"""
     sig = []
     for k in ("minExclusive", "minInclusive", "maxInclusive", "maxExclusive"):
         T = _model_type(R(B(name), (k, v)), S)
         if T is None:
             return None
-        sig.append(_with(S, lambda: T.check(w)[0]) == "V")
+        st = _with(S, lambda: T.check(w)[0])
+        if st == "U" and unknown:
+            return None
+        sig.append(st == "V")
     return tuple(sig)
 
 
@@ -857,19 +861,32 @@ def explain(kind, f):
     if kind.startswith("order-"):
         name = f.get("type")
         cand = [d["id"] for d in DEFECTS if d["id"] in ACTIVE and d["scope"] not in (None, "union") and name in d["scope"]]
-        for S in _subsets(cand):
+        negdur = name == "duration" and act("negative-duration-compare-equal")
+
+        def pair(x, y, robs, S):
+            """-> 'same' (model with S predicts robs, as the plain reference does), 'defect' (only the defect model predicts it), 'unknown' (not judged), None (no)"""
+            sig = model_sig(name, x, y, S, unknown=True)
+            if sig is None:
+                return "unknown"
+            std = _SIG2REL.get(model_sig(name, x, y, ()))
+            if _SIG2REL.get(sig) == robs:
+                return "same" if std == robs else "defect"
+            if negdur and x.startswith("-") and y.startswith("-") and robs == EQ and std == IN:
+                return "negdur"
+            return None
+        for S in [()] + list(_subsets(cand)):
             if kind == "order-not-transitive":
-                okk = all(_SIG2REL.get(model_sig(name, x, y, S)) == r for x, y, r in ((f["a"], f["b"], f["ab"]), (f["b"], f["c"], f["bc"]), (f["a"], f["c"], f["ac"])))
+                got = [pair(x, y, r, S) for x, y, r in ((f["a"], f["b"], f["ab"]), (f["b"], f["c"], f["bc"]), (f["a"], f["c"], f["ac"]))]
             elif kind == "order-not-antisymmetric":
-                okk = _SIG2REL.get(model_sig(name, f["a"], f["b"], S)) == f["ab"] and _SIG2REL.get(model_sig(name, f["b"], f["a"], S)) == f["ba"]
-            elif kind == "order-facets-inconsistent":
-                okk = model_sig(name, f["w"], f["v"], S) == tuple(f["gt_ge_le_lt"])
+                got = [pair(f["a"], f["b"], f["ab"], S), pair(f["b"], f["a"], f["ba"], S)]
             elif kind == "order-not-reflexive":
-                okk = _SIG2REL.get(model_sig(name, f["a"], f["a"], S)) == f["observed"]
+                got = [pair(f["a"], f["a"], f["observed"], S)]
+            elif kind == "order-facets-inconsistent":
+                got = ["defect" if S and model_sig(name, f["w"], f["v"], S) == tuple(f["gt_ge_le_lt"]) else None]
             else:
-                okk = False
-            if okk:
-                return list(S)
+                got = [None]
+            if None not in got and ("defect" in got or "negdur" in got):
+                return list(S) + (["negative-duration-compare-equal"] if "negdur" in got else [])
         return None
     if tdef is None:
         return None
@@ -1537,7 +1554,20 @@ def facet_order_axioms(boundres, acc):
     verdicts 'w is valid for {min,max}{In,Ex}clusive = v' and must be a consistent (partial) order: exactly one of LT/EQ/GT/IN is
     expressed, w<v iff v>w, equality symmetric, reflexive, and < transitive (also through equal values) over all triples."""
     by = {}
+    skip = {}
+
+    def not_judged(name, lit):
+        """literals whose value / position in the order the reference model does not judge (documented conversion bands, see assumptions)"""
+        key = (name, lit)
+        if key not in skip:
+            T = Type(B(name))
+            st, v, lex = T.check(lit)
+            skip[key] = st != "V" or float_band(T, lex) or (isinstance(T.prim, O.DateTimeLike) and T.prim.order_unspec(v))
+        return skip[key]
     for name, k, v, w, ok in boundres:
+        if not_judged(name, v) or not_judged(name, w):
+            acc.count("facet_order_not_judged_literals")
+            continue
         by.setdefault(name, {}).setdefault((w, v), {})[k] = ok
     for name, m in by.items():
         rel = {}
